@@ -293,6 +293,23 @@ func C12Scenarios(tier string) []*h.Scenario {
 				}
 			}})
 			ev = append(ev, evDescribeOmits(a.ASG.Name))
+			// a node carrying a's label whose instance sits in the ASG of the other configured group b
+			// (mislabelled): due for removal in a, it is not a member of a's cloud group
+			ev = append(ev, h.Event{Label: "mislabelled-node(label a, instance in b's ASG)", Apply: func(hh *h.Hist) {
+				bASG := hh.W.FindASG(other.ASG.Name)
+				if bASG == nil {
+					return
+				}
+				for _, n := range hh.W.Nodes {
+					if n.Labels["mislabelled"] == "yes" {
+						return
+					}
+				}
+				n := hh.W.AddNode(bASG, sim.NodeOpt{Age: 50 * Q, TaintAge: dp(5 * Q)})
+				bASG.Desired-- // b's desired capacity stays what it was (the instance is surplus to it): b's world is unchanged
+				n.Labels[a.Opts.LabelKey] = a.Opts.LabelValue
+				n.Labels["mislabelled"] = "yes"
+			}})
 			// a pod deleted and re-created under the same name between two scans: the largest pod of a now
 			// selects no configured group / a pod that selected none now selects a
 			ev = append(ev, h.Event{Label: "pod-recreated-same-name(a -> no group)", Apply: func(hh *h.Hist) {
@@ -387,7 +404,14 @@ func C12Scenarios(tier string) []*h.Scenario {
 		}
 		innerEv := s.Events
 		s.Events = func(hh *h.Hist, slot int) []h.Event {
-			ev := innerEv(hh, slot)
+			var ev []h.Event
+			for _, e := range innerEv(hh, slot) {
+				// here b scales up from zero on its own ASG's numbers: an extra instance in that ASG would be
+				// a change inside b, not inside a
+				if !strings.HasPrefix(e.Label, "mislabelled-node(") {
+					ev = append(ev, e)
+				}
+			}
 			ev = append(ev, h.Event{Label: "resize-first-node(a,4000m)", Apply: func(hh *h.Hist) {
 				for _, n := range groupNodes(hh, ga, 1) {
 					n.Status.Allocatable = v1.ResourceList{
